@@ -50,9 +50,20 @@ func randSpAlt() ext {
 
 // relative of a spatial ID that is again a spatial ID (h = v)
 func relativeSp(e ext) ext {
-	switch rng.Intn(6) {
+	switch rng.Intn(7) {
 	case 0:
 		return e
+	case 6: // numeric twin at a neighbouring zoom: the same x and y NUMBERS and the same offset vertical index f + 2^(z-1)
+		// (the key the single-zoom check stores) — a different voxel, which only the zoom tells apart
+		z2 := e.h + 1
+		if z2 > 35 || rng.Intn(2) == 0 {
+			z2 = e.h - 1
+		}
+		if z2 < 1 || e.h < 1 {
+			return e
+		}
+		r := ext{z2, e.x, e.y, z2, e.f + pow2(e.h-1) - pow2(z2-1)}
+		return clampExt(r)
 	case 1:
 		d := int64(rng.Intn(4))
 		if d >= e.h {
